@@ -24,6 +24,7 @@ RULE = (
     "the dataset, a missing path and a missing file; unrelated attribute/group/dataset unchanged. Non-trivial = "
     ">=3 steps including a cross-file operation or a re-creation over an occupied path. Distinct by sha1 of the "
     "history."
+    ' Creation inside histories also through `cooler load [--append]` (write mode drawn often); soft links whose source is itself a link; recognition probes and listings on files that contain dangling soft/external links (and paths below them).'
 )
 ASSUMPTIONS = [
     "histories stay well-defined: no link/move of the root, no removal or truncation of a link's target while the link exists, "
